@@ -13,12 +13,12 @@ import (
 
 type stdModel func(x *Exec, fr *frame, ins ssa.CallInstruction, c *ssa.CallCommon, args []Val, st *State, r string) (Val, string)
 
-var stdModels map[string]stdModel
+var stdModels = map[string]stdModel{}
 
 var usedModels = map[string]bool{}
 
 func init() {
-	stdModels = map[string]stdModel{
+	for k, v := range map[string]stdModel{
 		"(encoding/binary.bigEndian).Uint16":    beGet(2),
 		"(encoding/binary.bigEndian).Uint32":    beGet(4),
 		"(encoding/binary.bigEndian).Uint64":    beGet(8),
@@ -29,6 +29,8 @@ func init() {
 		"bytes.Equal":                           bytesEqual,
 		"errors.New":                            newError,
 		"fmt.Errorf":                            newError,
+	} {
+		stdModels[k] = v
 	}
 }
 
@@ -40,7 +42,7 @@ func beGet(n int) stdModel {
 		used(fmt.Sprintf("binary.BigEndian.Uint%d: big-endian value of b[0:%d], panics when len(b) < %d", n*8, n, n))
 		b := args[1]
 		r = x.guard(fr, ins, r, sx(">=", b[2].T, itoa(int64(n))), "index")
-		return Val{ic(beTerm(func(i int) string { return sel(st.Mem, b[0].T, add(b[1].T, itoa(int64(i)))) }, n))}, r
+		return Val{ic(beTerm(func(i int) string { return x.vc.read(st.Mem, b[0].T, add(b[1].T, itoa(int64(i)))) }, n))}, r
 	}
 }
 
@@ -95,20 +97,17 @@ func slicesConcat(x *Exec, fr *frame, ins ssa.CallInstruction, c *ssa.CallCommon
 		es = x.vc.ls.size(sl.Elem())
 	}
 	mem := st.Mem
-	total := "0"
-	var starts []string
+	var seqs []*Seq
 	for _, p := range parts {
-		starts = append(starts, total)
-		total = x.vc.S.def("cat_len", ic(add(total, p[2].T))).T
+		p := p
+		seqs = append(seqs, &Seq{Len: mulc(p[2].T, es), At: func(i string) string { return x.vc.read(mem, p[0].T, add(p[1].T, i)) }})
 	}
-	ref := x.vc.allocWith(st, "concat", mulc(total, es), func(o string) string {
-		t := "0"
-		for k := len(parts) - 1; k >= 0; k-- {
-			p := parts[k]
-			t = ite(sx("<", o, mulc(add(starts[k], p[2].T), es)), sel(mem, p[0].T, add(p[1].T, sub(o, mulc(starts[k], es)))), t)
-		}
-		return t
-	})
+	cs := catSeq(x, seqs)
+	total := cs.Len
+	if es != 1 {
+		total = x.vc.S.def("cat_n", ic(sx("div", cs.Len, itoa(int64(es))))).T
+	}
+	ref := x.vc.allocWith(st, "concat", cs.Len, cs.At)
 	// Go: Concat of all-empty slices returns nil; keep it simple and sound for len/content
 	return Val{ic(ref), ic("0"), ic(total), ic(total)}, r
 }
@@ -150,7 +149,7 @@ func bytesEqual(x *Exec, fr *frame, ins ssa.CallInstruction, c *ssa.CallCommon, 
 		fmt.Sprintf("(forall ((i Int)) (! (=> (and (<= 0 i) (< i %s)) (= (%s %s (+ %s i)) (%s %s (+ %s i)))) :pattern ((%s %s (+ %s i)))))",
 			a[2].T, st.Mem, a[0].T, a[1].T, st.Mem, b[0].T, b[1].T, st.Mem, a[0].T, a[1].T))))
 	S.fact(r, implies(not(e), or(not(eq(a[2].T, b[2].T)),
-		and(sx("<=", "0", k), sx("<", k, a[2].T), not(eq(sel(st.Mem, a[0].T, add(a[1].T, k)), sel(st.Mem, b[0].T, add(b[1].T, k))))))))
+		and(sx("<=", "0", k), sx("<", k, a[2].T), not(eq(x.vc.read(st.Mem, a[0].T, add(a[1].T, k)), x.vc.read(st.Mem, b[0].T, add(b[1].T, k))))))))
 	return Val{bc(e)}, r
 }
 
